@@ -270,6 +270,9 @@ fn cmd_selftest(a: &Args) -> i32 {
         drives.push(Drive::Walk(k));
         drives.push(Drive::PollThenWalk(k));
     }
+    drives.push(Drive::WalkOwned(0));
+    drives.push(Drive::WalkOwned(1));
+    drives.push(Drive::PollNThenCollect(3));
     let floats = [0.0, -0.0, 1e-3, 5e-324, f64::MIN_POSITIVE, 1.0 + f64::EPSILON, -1000.0, 1e300, 0.1 + 0.2];
     let mut n = 0u64;
     let mut bad = 0u64;
@@ -277,7 +280,7 @@ fn cmd_selftest(a: &Args) -> i32 {
         for (di, drive) in drives.iter().enumerate() {
             let kind = KINDS[(pi + di) % KINDS.len()];
             let dynamic = (pi + di) % 2 == 0;
-            let nn = 1 + ((pi * 7 + di) % 4) as u8;
+            let nn = if dynamic && di % 5 == 0 { 9 + (pi as u8) * 20 } else { 1 + ((pi * 7 + di) % 4) as u8 };
             let f = |i: usize| floats[(pi * 3 + di + i) % floats.len()];
             let inst = InstSpec {
                 kind,
